@@ -222,6 +222,15 @@ Theorem gen_correct_partial_msg cf o cc lv st je jst body fuel text env' old :
   sim_step cf o cc lv st je jst (SMsg body) fuel text env' old.
 Proof. apply gen_correct_partial_stmt. Qed.
 
+(* a message whose child is a plural with numeric cases, rendered without a bundle: a statement of the subset (SMsgPl), so
+   the step is a case of the statement simulation and the plural may occur anywhere in the body of a template *)
+Theorem gen_correct_partial_plural_stmt cf o cc lv st je jst pn v q fuel text env' old :
+  c_oblig cf = [] -> callctx_ok cf o cc -> (cc_fuel cc + sdepth (SMsgPl pn v q) < fuel)%nat -> sim cf cc st je jst old ->
+  swf lv (SMsgPl pn v q) = true -> lvok lv (j_scope jst) ->
+  sout (c_ij cf) (mode st) go_print_text (cc_denv cc) (cc_callee cc) (sc_lookup (ctx st)) (SMsgPl pn v q) = Some (text, env') ->
+  sim_step cf o cc lv st je jst (SMsgPl pn v q) fuel text env' old.
+Proof. apply gen_correct_partial_stmt. Qed.
+
 (* a context for statements without calls: no callee writes anything (sout is None on every call) *)
 Definition cc_nocalls (denv : bstr -> option value) : callctx :=
   {| cc_denv := denv; cc_callee := fun _ _ => None; cc_jfn := fun _ _ _ => OutOfModel; cc_fuel := 0 |}.
